@@ -34,6 +34,8 @@ func c01RedisErr(class string) error {
 		return context.DeadlineExceeded
 	case "brkopen":
 		return breaker.ErrServiceUnavailable
+	case "wbrkopen":
+		return fmt.Errorf("wrapped: %w", breaker.ErrServiceUnavailable)
 	case "other":
 		return errors.New("c01 other")
 	}
@@ -42,7 +44,7 @@ func c01RedisErr(class string) error {
 
 func TestVerifC01Redis(t *testing.T) {
 	good := []string{"nil", "rnil", "wrnil", "canceled", "wcanceled"}
-	bad := []string{"deadline", "other", "brkopen"}
+	bad := []string{"deadline", "other", "brkopen", "wbrkopen"}
 	specs := []verifc01.SiteSpec{
 		{Site: "rproc", Good: good, Bad: bad, Flags: func(r *verifh.Rng, c *verifc01.Call) { c.Ignored = r.Chance(1, 8) }},
 		{Site: "rpipe", Good: good, Bad: bad},
